@@ -2,6 +2,7 @@ SPECIFICATION TraceSpec
 CONSTANTS
   Nil = Nil
   Locked = TRUE
+  CheckUnderLock = TRUE
   Canon = TRUE
 INVARIANTS
   RightSet
